@@ -55,6 +55,9 @@ pub fn single_path_ops(p: &str, rich: bool) -> Vec<Op> {
             Op::ChmodB(s(), ChmodOpt { sel: ChmodSel::All(0o755), recursive: false, follow: false }),
             Op::ChmodB(s(), ChmodOpt { sel: ChmodSel::All(0o500), recursive: true, follow: true }),
             Op::ChmodB(s(), ChmodOpt { sel: ChmodSel::Sym("f:a+x,d:go-w".into()), recursive: true, follow: false }),
+            Op::ChmodB(s(), ChmodOpt { sel: ChmodSel::Sym("a:o+r,f:u-w".into()), recursive: true, follow: true }),
+            Op::ChmodB(s(), ChmodOpt { sel: ChmodSel::Sym("a:go-rwx".into()), recursive: false, follow: true }),
+            Op::ChmodB(s(), ChmodOpt { sel: ChmodSel::Files(0o604), recursive: true, follow: true }),
             Op::ChownB(s(), ChownOpt { uid: Some(7), gid: None, recursive: false, follow: false }),
             Op::ChownB(s(), ChownOpt { uid: None, gid: Some(8), recursive: true, follow: true }),
             Op::WriteAll(s(), vec![]),
